@@ -166,6 +166,46 @@ def ble_status_update_then_answer(ctx: Ctx) -> None:
                                   f"the answer; the call raised {rec.exc!r}", case, trace=o["trace"][-20:])
 
 
+def two_rejections_first_wins(ctx: Ctx) -> None:
+    """The device's hello is unacceptable (another name than expected / an unsupported major version) AND its login verdict is 'invalid password':
+    two failures, reported in two messages in a fixed order (hello answer first).  The connect waiter observes the first one."""
+    from aioesphomeapi.core import BadNameAPIError, InvalidAuthAPIError
+    from vf.sim.device import DeviceConfig
+    from vf.sim.scenario import Sim
+
+    res = ctx.res
+    idx = 0
+    for first in ("other-name", "major-3"):
+        for coalesce in (False, True):
+            for split in (False, True):
+                idx += 1
+                if not ctx.mine(400 + idx):
+                    continue
+                with Sim() as sim:
+                    cfg = DeviceConfig(name="somebody-else" if first == "other-name" else "dev", api_major=3 if first == "major-3" else 1, invalid_password=True)
+                    cfg.coalesce_replies = coalesce
+                    cfg.hello_name = cfg.name          # (the name IS in the hello: no firmware rotation here)
+                    sim.device(cfg)
+                    cli = sim.client(None, 6053, "pw", expected_name="dev")
+                    if split:
+                        c0 = sim.call("start", lambda: cli.start_connection())
+                        sim.run(until=lambda: c0.done, max_time=sim.clock + 50)
+                        c1 = sim.call("finish", lambda: cli.finish_connection(login=True))
+                    else:
+                        c1 = sim.call("connect", lambda: cli.connect(login=True))
+                    sim.run(until=lambda: c1.done, max_time=sim.clock + 100)
+                    res.evaluations += 1
+                    res.count("baseline/two-rejections")
+                    res.count("oracle_evaluations")
+                    res.sigs.add(f"two-rejections/{first}/{coalesce}/{split}")
+                    case = {"spec": None, "two_rejections": first + "+invalid-password", "one_chunk": coalesce, "split_connect": split}
+                    e = c1.exc
+                    ok = isinstance(e, BadNameAPIError) if first == "other-name" else (e is not None and "ncompatible" in str(e) and not isinstance(e, InvalidAuthAPIError))
+                    if not ok:
+                        res.violation(f"C09/first-cause-masked/{c1.name}", f"hello answer unacceptable ({first}) and login rejected, in that order: the call ended with {e!r}",
+                                      case, trace=sim.trace(30))
+
+
 def short_reject_then_hangup(ctx: Ctx) -> None:
     """An encrypted-only device answers a plaintext client with the first byte(s) of its reject - 1, 2 or 3 bytes starting with the 0x01
     indicator - and hangs up (FIN or RST), at once or a moment later; or a peer sends one byte of garbage and hangs up.  The first cause is what
@@ -366,6 +406,7 @@ def shard(ctx: Ctx) -> None:
     overlapping_disconnects(ctx)
     ble_time_bounds(ctx)
     ble_drop_reasons(ctx)
+    two_rejections_first_wins(ctx)
     ble_status_update_then_answer(ctx)
     rejection_then_hangup(ctx)
     sweep.standard_sweep(ctx, PROP)
